@@ -245,6 +245,7 @@ def strip_anns(c):
 def c14(tier, seed):
     ex = Explorer('C14', tier, seed)
     n = budget(tier, 150)
+    hs_cases = []
     for k in range(n):
         D = std_dataset(ex.rng, maxleaves=ex.rng.choice([3, 4, 5, 6, 8, 10]))
         cid = 'C14-%d' % k
@@ -278,18 +279,27 @@ def c14(tier, seed):
                 o.put('vmap', ob.vmapS(h2.compare_genomes_vertically(gs[a], gs[d])))
             ex.submit(cid + '-r%d' % j, E, o.tags, ['load', 'forest', 'members', 'genomes', 'vmap'],
                       queries=['(v %s %s)' % (tax_q(a), tax_q(d)) for a, d in pairs])
-        if tier == 'thorough' and k % 10 == 0:
-            # hash seed / set iteration order: re-run in sub-processes
-            payload = json.dumps(dict(nwk=core.nwk_of(D), xml=gen.orthoxml(D.species, D.groups), own=(D.naming == 'own')))
-            outs = []
-            for hs in ('0', '1', '17', '4242'):
-                env = dict(os.environ, PYTHONHASHSEED=hs)
-                p = subprocess.run([sys.executable, os.path.join(os.path.dirname(__file__), 'hashseed_probe.py')], input=payload,
-                                   stdout=subprocess.PIPE, stderr=subprocess.PIPE, text=True, env=env)
-                outs.append(p.stdout)
-            ex.res.count('hashseed_runs', 4)
-            if len(set(outs)) != 1 or not outs[0].strip():
-                ex.fail(cid, D, ['results depend on PYTHONHASHSEED'])
+        if len(hs_cases) < (40 if tier == 'quick' else 400):
+            hs_cases.append((cid, D, dict(nwk=core.nwk_of(D), xml=gen.orthoxml(D.species, D.groups), own=(D.naming == 'own'))))
+    # hash seed / set iteration order: the collected datasets are re-loaded in sub-processes under several PYTHONHASHSEEDs
+    # (one process per seed); every analysis must be the same in all of them
+    if hs_cases:
+        payload = json.dumps([x[2] for x in hs_cases])
+        outs = []
+        for hsd in (('0', '4242') if tier == 'quick' else ('0', '1', '17', '4242')):
+            env = dict(os.environ, PYTHONHASHSEED=hsd)
+            p = subprocess.run([sys.executable, os.path.join(os.path.dirname(__file__), 'hashseed_probe.py')], input=payload,
+                               stdout=subprocess.PIPE, stderr=subprocess.PIPE, text=True, env=env)
+            lines_ = p.stdout.strip().split('\n')
+            if len(lines_) != len(hs_cases):
+                ex.res.infra.append('hash-seed probe under PYTHONHASHSEED=%s answered %d of %d cases: %s' % (hsd, len(lines_), len(hs_cases), p.stderr[-300:]))
+                break
+            outs.append(lines_)
+            ex.res.count('hashseed_runs', len(hs_cases))
+        if len(outs) >= 2:
+            for i, (cid_, D_, _) in enumerate(hs_cases):
+                if len(set(o_[i] for o_ in outs)) != 1 or '"error"' in outs[0][i]:
+                    ex.fail(cid_, D_, ['results depend on PYTHONHASHSEED (or the load failed in a sub-process)'])
     ex.finish()
     ex.close()
     return ex.res
@@ -378,6 +388,8 @@ def c15(tier, seed):
                 if sorted(got) != sorted(ids):
                     bad.append('get_genes_by_external_id(%r) = %s, expected %s' % (v, got, ids))
             for hid, top in h.get_dict_top_level_hogs().items():
+                if hid is None:
+                    continue            # a family written without id is listed, but there is no id to look it up by
                 if h.get_hog_by_id(hid) is not top:
                     bad.append('get_hog_by_id(%r)' % hid)
                 if hid.isdigit() and str(int(hid)) == hid and h.get_hog_by_id(int(hid)) is not top:
@@ -471,7 +483,7 @@ def c15(tier, seed):
             for v in ex.rng.sample(sorted(xm), min(3, len(xm))) + ['no-such-xref']:
                 queries.append('(lookup xref %s)' % gen.q(v))
                 o.put('lookup', 'xref:%s=%s' % (v, ans(h.get_genes_by_external_id, v, show=lambda r: ','.join(x.unique_id for x in r))))
-            for hid in list(h.get_dict_top_level_hogs())[:3] + ['no-such-hog']:
+            for hid in [x for x in h.get_dict_top_level_hogs() if x is not None][:3] + ['no-such-hog']:
                 queries.append('(lookup hog %s)' % gen.q(hid))
                 o.put('lookup', 'hog:%s=%s' % (hid, ans(h.get_hog_by_id, hid, show=nodekey)))
             for name in [sp for sp, _ in D.species][:3] + ['no-such-species']:
@@ -659,7 +671,7 @@ def c17(tier, seed):
         listed0 = [set(genomes_of(h)) for h in hs]
         held = []          # (call index, function that renders the RETURNED OBJECT again)
         taxa = sorted(p for p, g in genomes_of(hs[0]).items() if g.genes)
-        tids = sorted(hs[0].get_dict_top_level_hogs())
+        tids = sorted(hs[0].get_dict_top_level_hogs(), key=str)
         hogkeys = sorted(nodekey(x) for t in hs[0].get_list_top_level_hogs() for x in all_nodes(t) if isinstance(x, ag.HOG))
         genes = sorted(hs[0].get_dict_extant_genes())
         bad = []
